@@ -437,27 +437,30 @@ func c05Fields(r *core.Run) {
 		info := fn.Pkg.TypesInfo
 		var fields []string
 		nCalls, inLoop := 0, false
-		ast.Inspect(fn.Decl.Body, func(n ast.Node) bool {
-			c, ok := n.(*ast.CallExpr)
-			if !ok || !stdMethod(core.Callee(info, c), "reflect", "Value", "Call") {
-				return true
+		// the reflective call may sit in a helper shared by the phases (callX(ctx, t.commitMethod, ..)): the
+		// helper is analysed in this method's context and the called value traced back to the receiver's field
+		res := (&flow.Spec{W: w, Depth: 0, Classify: func(pkg *packages.Package, call *ast.CallExpr, callee *types.Func) []flow.Tag {
+			if stdMethod(callee, "reflect", "Value", "Call") {
+				return []flow.Tag{"rcall"}
+			}
+			return nil
+		}}).Analyze(fn)
+		for _, cp := range res.Calls {
+			if !inSet("rcall", cp.Tags...) {
+				continue
 			}
 			nCalls++
-			for _, e := range enclosing(fn.Decl.Body, c) {
-				switch e.(type) {
-				case *ast.ForStmt, *ast.RangeStmt:
-					inLoop = true
+			if cp.InLoop || cp.Before.Maybe("rcall") {
+				inLoop = true
+			}
+			if sel, ok := ast.Unparen(cp.Call.Fun).(*ast.SelectorExpr); ok {
+				o := originVia(fn, cp.Fn, sel.X, 3)
+				if i := strings.LastIndex(o, "."); i >= 0 && strings.HasPrefix(o, "param:") && !strings.ContainsAny(o[i+1:], "()| ") {
+					fields = append(fields, o[i+1:])
 				}
 			}
-			if sel, ok := ast.Unparen(c.Fun).(*ast.SelectorExpr); ok {
-				if fs, ok := ast.Unparen(sel.X).(*ast.SelectorExpr); ok {
-					if v, ok := info.Uses[fs.Sel].(*types.Var); ok && v.IsField() {
-						fields = append(fields, v.Name())
-					}
-				}
-			}
-			return true
-		})
+		}
+		_ = info
 		r.Sites++
 		okc := nCalls == 1 && !inLoop && len(fields) == 1
 		if okc {
@@ -515,12 +518,30 @@ func c05Fields(r *core.Run) {
 					if o := core.ObjOf(info, as.Rhs[0]); o != nil {
 						if or := st.Def[o]; or != nil && w.Info(or.Callee) != nil {
 							getter = "<no tag>"
+							var hits []string
 							for _, c := range constsReferenced(w.Info(or.Callee)) {
 								for p2, t := range tagOf {
 									if c == t {
-										getter = p2
+										hits = append(hits, p2)
 									}
 								}
+							}
+							// a getter shared by several phases is told which tag to look for by the caller
+							if len(hits) == 0 && or.Call != nil {
+								for _, a := range or.Call.Args {
+									if c := core.ConstObj(info, a); c != nil {
+										for p2, t := range tagOf {
+											if c.Name() == t {
+												hits = append(hits, p2)
+											}
+										}
+									}
+								}
+							}
+							if hits = uniq(hits); len(hits) == 1 {
+								getter = hits[0]
+							} else if len(hits) > 1 {
+								getter = "<several tags: " + strings.Join(hits, ",") + ">"
 							}
 						}
 					}
